@@ -207,7 +207,7 @@ const EXAMPLE_VECTORS: [[u64; 4]; 7] =
 
 fn leg_examples(cfg: &Config) -> Result<Results, String> {
     let mut db = run::build_db(cfg);
-    let (sierra, compiled) = run::compile_with_program(&mut db, Path::new("/repo/examples"), cfg)
+    let (sierra, compiled) = run::compile_with_program(&mut db, Path::new(&format!("{}/examples", run::repo())), cfg)
         .map_err(|e| format!("examples do not compile under {}: {e:?}", cfg.name()))?;
     let tm = type_map(&sierra);
     let mut res = Results::new();
@@ -282,7 +282,7 @@ fn build_test_db(cfg: &Config, starknet: bool) -> RootDatabase {
         OptKind::Small(k) => enabled(InliningStrategy::InlineSmallFunctions(k)),
     });
     let mut db = b.build().expect("RootDatabase");
-    init_dev_corelib(&mut db, PathBuf::from(run::CORELIB));
+    init_dev_corelib(&mut db, PathBuf::from(run::corelib()));
     if let Some(k) = cfg.match_threshold {
         db.set_flag(
             FlagLongId(Flag::NUMERIC_MATCH_OPTIMIZATION_MIN_ARMS_THRESHOLD.into()),
@@ -628,7 +628,7 @@ pub fn main_c05(out: &Path, tier: &str, seed: u64) {
     // tests need gas (syscalls, #[available_gas]): only the gas-enabled configurations
     let gas_cfgs: Vec<Config> = configs.iter().filter(|c| c.gas.is_some()).cloned().collect();
     if want("bug_samples") {
-        let t_runs = run_leg_n(&gas_cfgs, 6, |cfg, _| leg_tests(cfg, "/repo/tests/bug_samples", "bug_samples:", true));
+        let t_runs = run_leg_n(&gas_cfgs, 6, |cfg, _| leg_tests(cfg, &format!("{}/tests/bug_samples", run::repo()), "bug_samples:", true));
         compare("bug_samples", &t_runs, &mut failures, &mut stats);
         if let Ok(r) = &t_runs[0].results {
             for (k, v) in r.iter().take(2) {
@@ -648,7 +648,7 @@ pub fn main_c05(out: &Path, tier: &str, seed: u64) {
             c(OptKind::Avoid, true, Some(2), Some(Solver::Linear)),
             c(OptKind::Default, false, None, Some(Solver::NonLinear)),
         ];
-        let c_runs = run_leg_n(&core_cfgs, 2, |cfg, _| leg_tests(cfg, "/repo/corelib", "corelib:", false));
+        let c_runs = run_leg_n(&core_cfgs, 2, |cfg, _| leg_tests(cfg, &format!("{}/corelib", run::repo()), "corelib:", false));
         compare("corelib_tests", &c_runs, &mut failures, &mut stats);
     }
 
@@ -688,7 +688,8 @@ fn pass_leg(out: &Path, progs: &[crate::ast::Program], tier: &str) -> serde_json
     let (src, _) = crate::crate_source(progs);
     let gen_path = out.join("src").join("c05_pass_gen.cairo");
     std::fs::write(&gen_path, src).unwrap();
-    for path in [gen_path.as_path(), Path::new("/repo/examples")] {
+    let examples_dir = format!("{}/examples", run::repo());
+    for path in [gen_path.as_path(), Path::new(&examples_dir)] {
         let mut db = run::build_db(&cfg);
         let inputs = match setup_project(&mut db, path) {
             Ok(i) => i,
